@@ -18,16 +18,35 @@ PROPS = {
         "jobs": lambda tier: [
             J("scaled", "witness --only C11"),
             J("scaled", "c11-enc"),
+            J("scaled", "c11-comp", imports="Base Stream Inst Run RunC11", shard=12),
+            J("scaled", "c11-raw", imports="Base Stream Inst Run RunC11", shard=20),
+            J("scaled", "c11-stack", imports="Base Stream Inst Run RunC11", shard=8),
+            J("scaled", "c11-cw", imports="Base Stream Inst Run RunC11", shard=20),
         ],
-        "rule": "scaled constants (CHUNK=64): every plaintext length 0..2*CHUNK+20 (quick) / 0..4*CHUNK+20 x4 (thorough), "
-                "each with a random 30-op in-range history of single reads and seeks from start/current/end biased to chunk "
-                "edges; a case is non-trivial when the plaintext is non-empty; distinct = distinct (plaintext, history)",
+        "run_modules": ["RunC11"],
+        "rule": "scaled constants (CHUNK=64, BLOCK=256). enc: every plaintext length 0..2*CHUNK+20 (quick) / 0..4*CHUNK+20 x4 (thorough), "
+                "each with a random 30-op in-range history of single reads and seeks from start/current/end biased to chunk edges. "
+                "comp: plaintext lengths 0..3*BLOCK+20 (quick: stride 23 plus every length within 2 of 0, BLOCK, 2*BLOCK, 3*BLOCK; thorough: all) x "
+                "{zeros, text, random}, written in pieces of {all,1,7,100,255,256,257,300,512} bytes at levels {0,1,5,9,11}, each with a random 30-op history of "
+                "reads (until n bytes or end of stream, n up to 3*BLOCK) and seeks from start/current/end biased to block edges +-1, 0 and the end; one history "
+                "in five also gets three out-of-range seeks (model correspondence only). raw: offsets {0,1,3,8,40} x body lengths 0..199, same histories. "
+                "stack: compression over encryption over raw over header++layers, 60 (quick) / 240 (thorough) plaintexts of 0..3*BLOCK+20 bytes. "
+                "cw: 150 (quick) / 600 (thorough) sequences of 0-6 single write calls of sizes {0, 1, BLOCK-1, BLOCK, BLOCK+1, 2*BLOCK+5, random} then finalize "
+                "(accepted counts, number of blocks and last_block_size of the real footer against the writer model). "
+                "a case is non-trivial when the plaintext is non-empty; distinct = distinct (inputs, history)",
         "exhaustive": {"quick": False, "thorough": False},
-        "explanation": "theorems: encryption-layer reader refines a cursor over any inner stream refining a cursor "
-                       "(all whences, any read sizes, every length); correspondence: per-op result, inner position, chunk "
-                       "number, cache position and length of the real EncryptionLayerReader equal the model's",
+        "explanation": "theorems: encryption-layer, compression-layer and raw-layer readers each refine a cursor over any inner stream refining a cursor "
+                       "(all whences, any read sizes, every length incl. 0 and multiples of the block size); opening establishes the invariant (footer parsed back); "
+                       "Refines composes for the stack of ArchiveReader::from_config; the compression writer is canonical; SizesInfo kernels regenerated from the "
+                       "source equal the model's. correspondence: per-op status, returned value, stream_position and bytes of the real readers equal the model's, "
+                       "the model parsing the REAL footer and using the real compressed block boundaries (block plaintexts decoded by the brotli crate directly); "
+                       "for the encryption layer also inner position, chunk number, cache position and length",
         "assumptions": ["fewer than 2^32-2 chunks per stream (current_chunk_number is a u32)",
-                        "the cipher enters as an arbitrary keystream/tag function; observables compared do not depend on it"],
+                        "the cipher enters as an arbitrary keystream/tag function; observables compared do not depend on it",
+                        "brotli enters as dec : bytes -> bytes with dec (comp x) = x (decompressing one block's compressed bytes yields that block); not re-implemented",
+                        "compression layer: |plain| < 2^63 (seek offsets are i64), footer 12+4*blocks bytes below 2^32 and below the bincode limit, compressed blocks below 4 GiB",
+                        "the inner position of the compression reader while a decompressor is live is unspecified by the code and not observed",
+                        "64-bit target: usize::try_from(u64) never fails"],
     },
     "C09": {
         "jobs": lambda tier: [
